@@ -147,6 +147,8 @@ class Parser(BaseParser):
 
         text_line = 1
         text_column = 1
+        # Iterating over bytes yields integers
+        newline = ord('\n') if isinstance(stream, bytes) else '\n'
 
         ## The main Earley loop.
         # Run the Prediction/Completion cycle for any Items in the current Earley set.
@@ -160,7 +162,7 @@ class Parser(BaseParser):
 
             to_scan, node_cache = scan(i, to_scan)
 
-            if token == '\n':
+            if token == newline:
                 text_line += 1
                 text_column = 1
             else:
